@@ -7,6 +7,7 @@ import (
 	"os"
 	"sort"
 	"strings"
+	"sync"
 
 	"golang.org/x/tools/go/ssa"
 )
@@ -45,14 +46,21 @@ type BaseField struct {
 // BaselinePath is set by the driver before Load; empty disables aliasing.
 var BaselinePath string
 
-// fieldAlias maps a current field object to its baseline name.
-var fieldAlias = map[*types.Var]string{}
+// fieldAlias maps a current field object to its baseline name (written during
+// Load, read while describing; the self-test loads programs in parallel).
+var (
+	fieldAliasMu sync.RWMutex
+	fieldAlias   = map[*types.Var]string{}
+)
 
 // Aliases lists the renames recognised by the last Load (for the report).
 func (p *Program) Aliases() []string { return p.aliases }
 
 func fieldDisplayName(f *types.Var) string {
-	if a, ok := fieldAlias[f]; ok {
+	fieldAliasMu.RLock()
+	a, ok := fieldAlias[f]
+	fieldAliasMu.RUnlock()
+	if ok {
 		return a
 	}
 	return f.Name()
@@ -204,7 +212,9 @@ func (p *Program) computeFieldAliases(b *Baseline) {
 			}
 			if cand >= 0 && !used[cand] {
 				used[cand] = true
+				fieldAliasMu.Lock()
 				fieldAlias[st.Field(cand)] = base[mi].Name
+				fieldAliasMu.Unlock()
 				p.aliases = append(p.aliases, fmt.Sprintf("field %s.%s is the baseline's %s.%s (renamed)", nm, st.Field(cand).Name(), nm, base[mi].Name))
 			}
 		}
